@@ -23,7 +23,14 @@ use std::sync::atomic::Ordering;
 pub enum WOp12 {
     Bits { v: u64, n: usize },
     Unary { x: u64 },
-    Bytes { data: Vec<u8>, all: bool },
+    Bytes {
+        data: Vec<u8>,
+        all: bool,
+        /// the slice handed to the library starts at this offset (0..8) from an 8-byte
+        /// aligned address (alignment of caller memory is an input like any other)
+        #[serde(default)]
+        align: u8,
+    },
     Flush,
 }
 
@@ -34,6 +41,34 @@ pub enum Mode12 {
     /// scale: one slice / buffer of 512 KiB or more (pseudo-random bytes derived from `seed`)
     /// at a bit offset given by the raw fields `off`
     Big { write: bool, word: Wd, kind: RdKind, off: Vec<(u64, usize)>, len: usize, seed: u64, all: bool },
+}
+
+/// A copy of `data` placed at offset `off` (0..8) from an 8-byte aligned address.
+pub struct AlignedBytes {
+    backing: Vec<u64>,
+    off: usize,
+    len: usize,
+}
+
+impl AlignedBytes {
+    pub fn new(data: &[u8], off: usize) -> Self {
+        let off = off % 8;
+        let mut backing = vec![0u64; (data.len() + off).div_ceil(8) + 1];
+        // SAFETY: a u64 buffer viewed as bytes, within its allocation
+        let bytes = unsafe { std::slice::from_raw_parts_mut(backing.as_mut_ptr() as *mut u8, backing.len() * 8) };
+        bytes[off..off + data.len()].copy_from_slice(data);
+        AlignedBytes { backing, off, len: data.len() }
+    }
+    pub fn get(&self) -> &[u8] {
+        // SAFETY: as above
+        let bytes = unsafe { std::slice::from_raw_parts(self.backing.as_ptr() as *const u8, self.backing.len() * 8) };
+        &bytes[self.off..self.off + self.len]
+    }
+    pub fn get_mut(&mut self) -> &mut [u8] {
+        // SAFETY: as above
+        let bytes = unsafe { std::slice::from_raw_parts_mut(self.backing.as_mut_ptr() as *mut u8, self.backing.len() * 8) };
+        &mut bytes[self.off..self.off + self.len]
+    }
 }
 
 pub const BIG_LENS: [usize; 7] = [524_287, 524_288, 524_289, 524_296, 532_291, 1_048_576, 1_048_583];
@@ -73,7 +108,9 @@ fn run_big(e: En, write: bool, word: Wd, kind: RdKind, off: &[(u64, usize)], len
                 return ctx.fail("C12.spurious_error", "write_bits failed".into());
             }
         }
-        let r = if all { guard(|| w.io_write_all(&data).map(|_| data.len())) } else { guard(|| w.io_write(&data)) };
+        let staged = AlignedBytes::new(&data, (seed % 8) as usize);
+        let sl: &[u8] = staged.get();
+        let r = if all { guard(|| w.io_write_all(sl).map(|_| sl.len())) } else { guard(|| w.io_write(sl)) };
         match r {
             Ok(Ok(k)) => {
                 ctx.ev(k as u64);
@@ -118,8 +155,10 @@ fn run_big(e: En, write: bool, word: Wd, kind: RdKind, off: &[(u64, usize)], len
                 _ => return ctx.fail("C12.read_bits", "fixed-width read before the byte read returned a wrong value".into()),
             }
         }
-        let mut buf = vec![0xEEu8; len];
-        match guard(|| rd.io_read(&mut buf)) {
+        let mut staged = AlignedBytes::new(&vec![0xEEu8; len], (seed % 8) as usize);
+        let r = guard(|| rd.io_read(staged.get_mut()));
+        let buf: Vec<u8> = staged.get().to_vec();
+        match r {
             Ok(Ok(k)) => {
                 ctx.ev(k as u64);
                 ctx.ev(crate::rng::fnv1a(&buf));
@@ -192,8 +231,11 @@ fn run_write(s: &S12, word: Wd, ops: &[WOp12], ctx: &mut Ctx) {
                     Err(p) => return ctx.fail("C12.panic", format!("op #{} flush panicked: {}", i, p)),
                 }
             }
-            WOp12::Bytes { data, all } => {
+            WOp12::Bytes { data, all, align } => {
                 ctx.step(tags("io_write"));
+                let staged = AlignedBytes::new(data, *align as usize);
+                let data: &[u8] = staged.get();
+                ctx.probe_if(*align != 0 && data.len() > 8, "c12.write_slice_at_unaligned_address");
                 let off = model.len() % wbits;
                 ctx.sig(&[12, e as u64, word as u64, off as u64, data.len().min(48) as u64, *all as u64]);
                 ctx.probe_if(data.is_empty(), "c12.write_empty_slice");
@@ -333,6 +375,7 @@ impl Family for C12 {
                     0..=5 => WOp12::Bytes {
                         data: gen_slice(rng),
                         all: rng.chance(1, 2),
+                        align: if rng.chance(1, 2) { rng.below(8) as u8 } else { 0 },
                     },
                     6 | 7 => WOp12::Bits {
                         v: rng.next(),
@@ -425,10 +468,15 @@ impl Family for C12 {
                 }
                 for (i, op) in ops.iter().enumerate() {
                     match op {
-                        WOp12::Bytes { data, all } => {
+                        WOp12::Bytes { data, all, align } => {
+                            if *align != 0 {
+                                let mut o = ops.clone();
+                                o[i] = WOp12::Bytes { data: data.clone(), all: *all, align: 0 };
+                                out.push(S12 { e: s.e, mode: Mode12::Write { word: *word, ops: o } });
+                            }
                             for d in shrink_list(data) {
                                 let mut o = ops.clone();
-                                o[i] = WOp12::Bytes { data: d, all: *all };
+                                o[i] = WOp12::Bytes { data: d, all: *all, align: *align };
                                 out.push(S12 { e: s.e, mode: Mode12::Write { word: *word, ops: o } });
                                 if out.len() > 300 {
                                     break;
@@ -436,7 +484,7 @@ impl Family for C12 {
                             }
                             if data.iter().any(|b| *b != 1) {
                                 let mut o = ops.clone();
-                                o[i] = WOp12::Bytes { data: vec![1; data.len()], all: *all };
+                                o[i] = WOp12::Bytes { data: vec![1; data.len()], all: *all, align: *align };
                                 out.push(S12 { e: s.e, mode: Mode12::Write { word: *word, ops: o } });
                             }
                         }
@@ -512,6 +560,7 @@ impl Family for C12 {
 
     fn required_probes(_t: Tier) -> Vec<&'static str> {
         vec![
+            "c12.write_slice_at_unaligned_address",
             "c12.write_empty_slice",
             "c12.write_len_not_multiple_of_8",
             "c12.write_len_not_multiple_of_word",
